@@ -391,6 +391,22 @@ class Session:
             res.faults["reentrant_read"] += 1
             self.run_inline(fault["do"], f"{where} re-entrant at end of iterable")
 
+    def lazy_arg(self, op, objs, fault, where):
+        """The three flavours of a lazily evaluated argument: a generator, or an object that
+        also has __len__ (sized but lazy), both carrying the fault directive."""
+        if op.get("sized"):
+            sess = self
+
+            class SizedLazy:
+                def __len__(self_):
+                    return len(objs)
+
+                def __iter__(self_):
+                    return sess.lazy(objs, fault, where)
+
+            return SizedLazy()
+        return self.lazy(objs, fault, where)
+
     def mutate(self, op: dict, i: int):
         net, U = self.net, self.U
         k = op["op"]
@@ -405,12 +421,12 @@ class Session:
                 r = net.add_node(U.obj(op["n"]))
             elif k == "add_nodes":
                 objs = [U.obj(n) for n in op["ns"]]
-                r = net.add_nodes(self.lazy(objs, fault, where) if op.get("lazy", True) else objs)
+                r = net.add_nodes(self.lazy_arg(op, objs, fault, where) if op.get("lazy", True) else objs)
             elif k == "add_link":
                 r = net.add_link(U.obj(op["u"]), U.obj(op["l"]), U.obj(op["v"]))
             elif k == "add_links":
                 objs = [(U.obj(u), U.obj(l), U.obj(v)) for u, l, v in op["items"]]
-                r = net.add_links(self.lazy(objs, fault, where) if op.get("lazy", True) else objs)
+                r = net.add_links(self.lazy_arg(op, objs, fault, where) if op.get("lazy", True) else objs)
             elif k == "add_origin":
                 r = net.add_origin(U.obj(op["o"]), U.obj(op["n"]))
             elif k == "add_destination":
@@ -427,7 +443,7 @@ class Session:
                     kw["origin"] = o
                 if d is not None:
                     kw["destination"] = d
-                arg = self.lazy(objs, fault, where) if op.get("lazy", True) else (tuple(objs) if op.get("astuple") else objs)
+                arg = self.lazy_arg(op, objs, fault, where) if op.get("lazy", True) else (tuple(objs) if op.get("astuple") else objs)
                 r = net.add_path(arg, **kw)
             else:  # pragma: no cover
                 raise core.HarnessError(f"unknown op {k}")
@@ -817,6 +833,8 @@ def attach_fault(rng: random.Random, op: dict, prop: str, enabled: set):
     """Draws a directive for a bulk call (stored in the op: replay needs no PRNG)."""
     if not op.get("lazy", True):
         return
+    if rng.random() < 0.2:
+        op["sized"] = True  # an argument that has __len__ but is still evaluated lazily
     n = {"add_nodes": lambda: len(op["ns"]), "add_links": lambda: len(op["items"]), "add_path": lambda: len(op["path"])}[
         op["op"]
     ]()
@@ -826,6 +844,19 @@ def attach_fault(rng: random.Random, op: dict, prop: str, enabled: set):
     elif "reentrant" in enabled and r < 0.45:
         at = sorted(set(rng.randint(0, n) for _ in range(rng.randint(1, 2))))
         op["fault"] = {"kind": "reentrant", "at": at, "do": gen_inline(rng, prop)}
+
+
+def gen_long_path(rng: random.Random, U: dict, n_points: int, malformed: bool) -> dict:
+    """A very long path handed over as a list / tuple (random walk over the universe; nodes and
+    links may repeat).  `malformed`: even number of points, i.e. it ends with a link."""
+    nn, nl = len(U["nodes"]), len(U["links"])
+    if n_points % 2 == (0 if not malformed else 1):
+        n_points += 1
+    path = [(f"n{rng.randrange(nn)}" if i % 2 == 0 else f"l{rng.randrange(nl)}") for i in range(n_points)]
+    op = {"op": "add_path", "path": path, "origin": None, "destination": None, "lazy": False, "astuple": rng.random() < 0.5}
+    if rng.random() < 0.5 and U["dests"]:
+        op["destination"] = f"d{rng.randrange(len(U['dests']))}"
+    return op
 
 
 def gen_malformed_path(rng: random.Random, U: dict) -> dict:
@@ -953,14 +984,21 @@ def generate(prop: str, run_seed: int, tier: str = "quick") -> dict:
         rng.choice(["unique", "unique", "dup", "mixed"])
     )
     big = rng.random() < 0.05  # swarm: now and then a much larger universe and history
-    U = gen_universe_spec(rng, name_mode=name_mode, **({"n_nodes": (9, 14), "n_links": (10, 18), "n_origins": (4, 8), "n_dests": (3, 6)} if big else {}))
+    huge = rng.random() < 0.012  # ... and rarely one beyond any small-size fast path (> 64 nodes)
+    sizes = {}
+    if huge:
+        big = True
+        sizes = {"n_nodes": (66, 90), "n_links": (70, 100), "n_origins": (6, 10), "n_dests": (5, 8)}
+    elif big:
+        sizes = {"n_nodes": (9, 14), "n_links": (10, 18), "n_origins": (4, 8), "n_dests": (3, 6)}
+    U = gen_universe_spec(rng, name_mode=name_mode, **sizes)
     # swarm: which fault kinds this run may use; one third of runs are fault-free
     enabled: set = set()
     if rng.random() > 0.34:
         for f in ("iter_raise", "reentrant", "malformed", "chaos"):
             if rng.random() < 0.6:
                 enabled.add(f)
-    topo = gen_valid_topology(rng, U, max_interior=8 if big else 4)
+    topo = gen_valid_topology(rng, U, max_interior=(70 if huge else 8) if big else 4)
     n_builders = rng.randint(1, 6 if big else 4)
     plans = plan_calls(rng, topo, n_builders, enabled)
     ops = interleave(rng, plans)
@@ -1003,6 +1041,12 @@ def generate(prop: str, run_seed: int, tier: str = "quick") -> dict:
                 break
 
     sprinkle()
+    if big and rng.random() < 0.6:
+        # a very long path (list / tuple), well-formed or ending with a link
+        lp = gen_long_path(rng, U, rng.choice([25, 31, 41, 128, 135, 160]) if huge or rng.random() < 0.3 else rng.randint(25, 45),
+                           malformed=(prop != "C14" and rng.random() < 0.4))
+        ops = list(ops)
+        ops.insert(rng.randint(0, len(ops)), lp)
     fail_p = 0.08 if ("chaos" in enabled and prop != "C09") else 0.0
     for op in ops:
         if rng.random() < chaos_p:
